@@ -3,6 +3,7 @@
 #include <eigen3/Eigen/Dense>
 #include <eigen3/Eigen/IterativeLinearSolvers>
 #include <eigen3/Eigen/Sparse>
+#include <cmath>
 #include <limits>
 
 #ifdef COLOQUINTE_VERIF
@@ -324,6 +325,7 @@ class MatrixCreator {
   void addMovingPin(int c1, int c2, float offs1, float offs2, float weight);
   void addFixedPin(int c1, float offs1, float pos, float weight);
 
+  void normalize();
   void finalize();
 
  private:
@@ -613,8 +615,42 @@ void MatrixCreator::finalize() {
   }
 }
 
+void MatrixCreator::normalize() {
+  // Scale the system by a power of two so that the largest right-hand side
+  // entry is in [1, 2). This is exact in floating point and does not change the
+  // solution, but keeps the squared norms computed by the conjugate gradient
+  // solver (and its absolute convergence threshold) away from underflow and
+  // overflow when all net weights and penalties are very small or very large
+  float maxRhs = 0.0f;
+  for (float v : rhs_) {
+    maxRhs = std::max(maxRhs, std::abs(v));
+  }
+  float maxMat = 0.0f;
+  for (const auto &t : mat_) {
+    maxMat = std::max(maxMat, std::abs(t.value()));
+  }
+  if (!(maxRhs > 0.0f) || !std::isfinite(maxRhs) || !std::isfinite(maxMat)) {
+    return;
+  }
+  int e = std::ilogb(maxRhs);
+  if (maxMat > 0.0f) {
+    // Never scale the matrix entries up to the overflow range
+    e = std::max(e, std::ilogb(maxMat) - 64);
+  }
+  if (e == 0) {
+    return;
+  }
+  for (auto &t : mat_) {
+    t = Eigen::Triplet<float>(t.row(), t.col(), std::ldexp(t.value(), -e));
+  }
+  for (float &v : rhs_) {
+    v = std::ldexp(v, -e);
+  }
+}
+
 std::vector<float> MatrixCreator::solve(float tolerance, int maxIterations) {
   check();
+  normalize();
   finalize();
   Eigen::SparseMatrix<float> mat(matSize(), matSize());
   mat.setFromTriplets(mat_.begin(), mat_.end());
